@@ -1,7 +1,7 @@
 (** C07 — arithmetic evaluates as bash's wrapping 64-bit C-style integer arithmetic.
     Only pinned statements, [exact], and [Print Assumptions]. *)
 From BV Require Import Base.Prelude Arith.Wrap64 Arith.Ast Arith.Lit Arith.PegPrec Arith.Parse Arith.Eval
-  Arith.EvalProofs Arith.ParseProofs gen.C07ArithTable.
+  Arith.EvalProofs Arith.ParseProofs Arith.TokProofs gen.C07ArithTable.
 
 (** *** the parser table regenerated from brush-parser/src/arithmetic.rs is the C / bash operator
     table: same levels in the same order, same associativity, same operator texts, same AST
@@ -17,6 +17,39 @@ Print Assumptions c07_table_well_typed.
 Theorem c07_table_markers_ok : forallb (forallb rule_markers_ok) arith_table = true.
 Proof. exact table_markers_ok. Qed.
 Print Assumptions c07_table_markers_ok.
+
+(** *** parse ∘ render = id.  The precedence algorithm rust-peg generates, run with the regenerated
+    table over a token stream, parses every rendering [R q e ts tq] of a tree [e] from bash's
+    operator table — minimal parentheses or any redundant ones — back to [e], in a call with
+    minimum level [m <= q] and before any continuation that cannot extend the expression.
+    (Token level: [c07_parse_render_partial]; the character-level statement
+    [TokProofs.parse_render_stmt] additionally needs the lexing lemma and is checked by
+    correspondence and by [entry_c07_roundtrip] on every run.) *)
+Theorem c07_parse_render_partial : forall q e ts tq, R q e ts tq ->
+  forall m rest fuel, (m <= q)%nat -> follow_ok m rest -> (length (ts ++ rest) < fuel)%nat ->
+  tparse fuel m (ts ++ rest) = PMatch e rest.
+Proof. exact tparse_render. Qed.
+Print Assumptions c07_parse_render_partial.
+
+(** every well-formed tree (no array subscripts), rendered with minimal parentheses *)
+Theorem c07_parse_render_min : forall e, wf e ->
+  parse_full (list tok) tok_lexer arith_table (render_at 0 e) = PMatch e [].
+Proof. exact tparse_render_min. Qed.
+Print Assumptions c07_parse_render_min.
+
+(** the side condition on the continuation is necessary *)
+Theorem c07_follow_needed :
+  tparse 10 0 [TNum 1; TOp [43%N]; TNum 2; TOp [42%N]; TNum 3]
+  = PMatch (EBin Add (ELit 1) (EBin Mul (ELit 2) (ELit 3))) [].
+Proof. exact follow_needed. Qed.
+Print Assumptions c07_follow_needed.
+
+(** non-vacuity, and the character-level statement on a tree containing every operator *)
+Theorem c07_parse_render_instance :
+  wf ex_all_ops /\ roundtrip_check ex_all_ops = true /\
+  parse_full (list tok) tok_lexer arith_table (render_at 0 ex_all_ops) = PMatch ex_all_ops [].
+Proof. exact parse_render_instance. Qed.
+Print Assumptions c07_parse_render_instance.
 
 (** *** wrapping arithmetic: + - * and unary minus are arithmetic modulo 2^64 *)
 Theorem c07_add_mod : forall a b, wadd a b mod M64 = (a + b) mod M64 /\ inr (wadd a b).
